@@ -9,3 +9,5 @@ var discardLogger = log.New(io.Discard, "", 0)
 
 // DiscardLogger is a *log.Logger that drops everything.
 func DiscardLogger() *log.Logger { return discardLogger }
+
+func newLogger(w io.Writer) *log.Logger { return log.New(w, "", 0) }
